@@ -26,6 +26,9 @@ clause -- the damage shows up in the property's own post-conditions on the real 
            arguments (its remaining options as in its own last call): state shared between two routines of a
            family (a common memo, a cached mask) is then set up by the sibling.
   spell    Python bool options are passed as np.bool_ or 0 / 1 on two calls out of three.
+  lock     on half of the judged calls the argument buffers are read-only: a write into the caller's array -- even
+           one undone before returning -- raises ("assignment destination is read-only") and is booked as a C13
+           violation instead of going unnoticed by the before / after comparison.
   replay   a routine without a seed parameter (and that leaves the global generators alone) is a function of its
            arguments: a few earlier calls are kept (private copies of the arguments, digest of the result) and
            re-issued later, after whatever else happened in between: `same_call_same_result`.
@@ -88,7 +91,7 @@ class History(object):
         self.n = {}         # fname -> call counter
         self.stats = {'reused_buffers': 0, 'fresh_buffers': 0, 'buffers_given_away': 0, 'aborted_precalls': 0,
                       'precalls_completed': 0, 'poisoned_results': 0, 'stability_rechecks': 0, 'primer_calls': 0,
-                      'primer_calls_raised': 0, 'sibling_calls': 0, 'respelled_flags': 0, 'replayed_calls': 0, 'sibling_calls_raised': 0, 'soft_deadline_hits': 0}
+                      'primer_calls_raised': 0, 'sibling_calls': 0, 'respelled_flags': 0, 'readonly_argument_calls': 0, 'replayed_calls': 0, 'sibling_calls_raised': 0, 'soft_deadline_hits': 0}
         self.siblings_seen = {}
         self._mon_ok = None
         self._armed = None
@@ -169,6 +172,8 @@ class History(object):
                 self.stats['fresh_buffers'] += 1
             else:
                 self.stats['reused_buffers'] += 1
+                if not buf.flags.writeable:      # a watchdog interrupted the call that had it locked
+                    buf.setflags(write=True)
             np.copyto(buf, v)
             bound.arguments[k] = buf
             used.append((key, buf))
